@@ -373,7 +373,7 @@ example : ∀ j, ∀ f' ∈ ([[⟨[.n 3], .n 0, .n 5⟩], [⟨[.n 1], .n 0, .n 4
     inside the shape `(S1, S0)` and lexicographically inside the active range the code builds,
     `((lo1, min lo0), (hi1, max hi0))`, whenever each operand fiber's coordinates lie inside its own
     range and shape. -/
-theorem flatten_coords_in_bounds {π : Type} (f : Fib Int (AF π)) (lo1 hi1 S1 S0 rs re : Int)
+theorem flatten_coords_in_bounds_partial {π : Type} (f : Fib Int (AF π)) (lo1 hi1 S1 S0 rs re : Int)
     (hrs : childLo f = some rs) (hre : childHi f = some re)
     (hup : ∀ e ∈ f, lo1 ≤ e.1 ∧ e.1 < hi1 ∧ 0 ≤ e.1 ∧ e.1 < S1)
     (hlow : ∀ e ∈ f, ∀ x ∈ e.2.elems, e.2.lo ≤ x.1 ∧ x.1 < e.2.hi ∧ 0 ≤ x.1 ∧ x.1 < S0) :
@@ -399,10 +399,11 @@ theorem flatten_coords_in_bounds {π : Type} (f : Fib Int (AF π)) (lo1 hi1 S1 S
 example : (flat2 [((0 : Int), (⟨[((3 : Int), (1 : Int)), (4, 2)], 0, 5⟩ : AF Int)), (1, ⟨[(4, 3)], 0, 5⟩)]).map (·.1) =
     [(0, 3), (0, 4), (1, 4)] := by decide
 
-/-- **split** (uniform, no halo, absolute coordinates) of a fiber whose range is `(0, S)`: every
+/-- **split** (uniform, no halo, absolute coordinates; `uSpec` is what C08's `uniform_spec` proves the
+    modelled splitter loop to compute) of a fiber whose range is `(0, S)`: every
     partition coordinate lies inside `[0, S)` (the duplicated shape entry and the upper fiber's
     range), every lower coordinate inside its partition's clipped range, which lies inside `[0, S)`. -/
-theorem split_coords_in_bounds {π : Type} (step S : Int) (elems : Fib Int π) (hstep : 0 < step) (hS : 0 < S)
+theorem split_coords_in_bounds_partial {π : Type} (step S : Int) (elems : Fib Int π) (hstep : 0 < step) (hS : 0 < S)
     (p : Part π) (hp : p ∈ uSpec step 0 0 0 S false elems) :
     (0 ≤ p.start ∧ p.start < S) ∧ (0 ≤ p.lo ∧ p.hi ≤ S) ∧ ∀ e ∈ p.elems, p.lo ≤ e.1 ∧ e.1 < p.hi := by
   obtain ⟨P, hP, _, rfl⟩ := (mem_uSpec step 0 0 0 S false elems p).1 hp
@@ -466,7 +467,7 @@ theorem lazy_attrs_partial (op : LazyOp) (a b : FAttr)
 example : lazyAttrs .populate ⟨"Z", 0, 0⟩ ⟨"B", 0, 9⟩ = ⟨"Z", 0, 9⟩ := by decide
 example : lazyAttrs (.project (-1) 20 none (some "Q")) ⟨"A", 1, 5⟩ ⟨"B", 0, 9⟩ = ⟨"Q", 16, 20⟩ := by decide
 
-/-- … `project` sets the id only `if rank_id is not None` (fiber.py:1338-1339) -/
+/-- … `project` sets the id only `if rank_id is not None` (fiber.py:1335-1336) -/
 theorem lazy_project_id_defect :
     ∃ a b : FAttr, (lazyAttrs (.project 1 0 none none) a b).id ≠ (lazySpec (.project 1 0 none none) a b).id :=
   ⟨⟨"A", 1, 5⟩, ⟨"B", 0, 9⟩, by decide⟩
